@@ -56,6 +56,55 @@ func VerifMulticastMembers() {
 	symapi.Reach("end")
 }
 
+// VerifMulticastSessions (C12 / C03): RTSP sessions that PLAY over multicast join the stream's
+// group; TEARDOWN or disconnect of a session takes exactly that session out of the group,
+// the group is served while a member is left and the proxy stops with the last one.
+func VerifMulticastSessions() {
+	proxy := &multicastProxy{path: "/live/a", multicastIP: "239.1.1.1", ttl: 1, bufferSize: 1024, sourceIP: "10.0.0.9"}
+	for i := range proxy.ports {
+		proxy.ports[i] = 5000 + i
+	}
+	src := media.NewStream("/live/a", verifSdp, media.Multicast(proxy))
+	media.Regist(src)
+	n := symapi.IntRange("sessions", 1, 2)
+	var ss []*Session
+	var fcs []*verifConn
+	for i := 0; i < n; i++ {
+		fc := &verifConn{}
+		s := verifSession(fc)
+		s.onRequest(verifReq(MethodDescribe, "rtsp://h/live/a", "1", "", ""))
+		s.onRequest(verifReq(MethodSetup, "rtsp://h/live/a/trackID=0", "2", verifTransports[3], ""))
+		s.onRequest(verifReq(MethodPlay, "rtsp://h/live/a", "3", "", ""))
+		symapi.Assert(s.status == statusPlaying, "multicast-playing-reached")
+		ss = append(ss, s)
+		fcs = append(fcs, fc)
+	}
+	symapi.Assert(src.ConsumerCount() == 1 && len(proxy.members) == n, "every-multicast-player-is-a-group-member")
+	first := 0
+	if n == 2 {
+		first = symapi.IntRange("first", 0, 1)
+	}
+	for k := 0; k < n; k++ {
+		i := first
+		if k == 1 {
+			i = 1 - first
+		}
+		s := ss[i]
+		if symapi.Bool("teardown") {
+			s.onRequest(verifReq(MethodTeardown, "rtsp://h/live/a", "4", "", ""))
+		}
+		s.process() // read loop ends; deferred release runs
+		symapi.Assert(fcs[i].closed >= 1, "connection-closed")
+		symapi.Assert(len(proxy.members) == n-k-1, "leaving-session-released-from-the-group")
+		if k < n-1 {
+			symapi.Assert(src.ConsumerCount() == 1 && !proxy.closed, "group-served-while-a-session-is-left")
+			symapi.Assert(fcs[1-i].closed == 0, "other-member-untouched")
+		}
+	}
+	symapi.Assert(src.ConsumerCount() == 0, "proxy-stops-with-the-last-session")
+	symapi.Reach("end")
+}
+
 // net.ListenUDP is replaced by this in the executor (no sockets): an unconnected UDPConn
 // whose operations fail with EINVAL like any closed connection.
 func verifListenUDPStub(network string, laddr *net.UDPAddr) (*net.UDPConn, error) {
